@@ -359,7 +359,8 @@ class WritableStream(io.RawIOBase):
         self.pos = 0
         self._toggle = 0
         self._exp_header = None
-        self._done = False
+        # Until the download has been initiated there is nothing for close() to finish
+        self._done = True
 
         if size is None or size < 1 or size > 4 or force_segment:
             # Initiate segmented download
@@ -380,12 +381,22 @@ class WritableStream(io.RawIOBase):
             command = REQUEST_DOWNLOAD | EXPEDITED | SIZE_SPECIFIED
             command |= (4 - size) << 2
             self._exp_header = SDO_STRUCT.pack(command, index, subindex)
+        self._done = False
 
     def write(self, b):
         """
         Write the given bytes-like object, b, to the SDO server, and return the
         number of bytes written. This will be at most 7 bytes.
         """
+        try:
+            return self._write(b)
+        except SdoError:
+            # Aborted or timed out: the transfer is over, close() must not
+            # send a closing segment for it
+            self._done = True
+            raise
+
+    def _write(self, b):
         if self._done:
             raise RuntimeError("All expected data has already been transmitted")
         if self._exp_header is not None:
